@@ -12,6 +12,7 @@ from vlib.runner import Eval
 
 ID = "C16"
 LEVEL = "exploration"
+CGF_RUNS = {"thorough": 3000}  # coverage-guided stage (vlib/cgf.py): libFuzzer executions per worker, 16 workers
 RULE = (
     "Base listings are real objdump output for generated objects/blobs and rendered synthetic listings. 1-6 presentation edits (kinds drawn first) are applied at drawn "
     "positions to a structured copy of the listing: add/remove/rename symbol label lines; remove/alter <sym+off> annotations after address operands; remove/alter/add "
